@@ -189,6 +189,20 @@ MISSED = {
     "C17-16": "-o=shell of a re-arranged document (reversed, sliced, doubled, filtered): names as after a round trip through JSON",
     "C18-15": "TOML entries whose tables share names (array of tables / plain table path) served by one decoder",
     "C19-16": "family F-inplace with the temporary on another file system and results shorter than the file",
+    "C01-17": "key lists that name a key twice (`.[\"b\", \"a\", \"b\"]`): one result per listed key",
+    "C02-17": "`-=` on sequences whose scalars are spelled alike but differ in type (1 / \"1\", true / \"true\")",
+    "C03-17": "maps that merge an anchored map and replace merged entries with entries of their own (family merge_key_maps)",
+    "C05-17": "folded scalars with more than one empty line between paragraphs",
+    "C07-17": "updates addressed at a position counted from the end that lies before the start",
+    "C08-17": "encoders over anchor-free maps with non-string keys / an inline merge map",
+    "C10-17": "a constant side file loaded for every document and changed in place (templates load-mutate)",
+    "C11-17": "wildcard patterns with 14-21 stars against a long name made of the pattern's literal (family many-star-glob)",
+    "C14-17": "Lua long-bracket strings that start with a line break",
+    "C15-17": "distinct numbers a relative 1e-13 .. 1e-16 apart",
+    "C16-17": "a re-ordered copy (sort, reverse, unique, group_by) taken on the way, then the original's elements asked",
+    "C17-17": "flag variants next to -o=shell (-r, --unwrapScalar, -r=false, -N, -I4, -M)",
+    "C18-17": "family string-evaluator-history: one StringEvaluator serves a sequence of evaluations",
+    "C19-17": "base64 inputs whose last group is incomplete, with a line break (injectBase64)",
 }
 REGRESSED = {
     "C11-1": "caught when delivered (4 violation lines), lost when the generator grew (0 of 40 k cases), caught again after reversed slices were made denser and the quick tier raised to 100 k cases",
